@@ -196,8 +196,8 @@ theorem dropLastEmpty_id (ls : List Str) (h : ∀ l ∈ ls.getLast?, l ≠ []) :
       rw [ih (fun x hx => h x (by simpa [List.getLast?_cons_cons] using hx))]
 
 /-- the lines of a value: its first line and the continuation lines as written -/
-theorem splitlines_value (first : Str) (conts : List TLine) (hf : NoB first) (hfne : first ≠ [])
-    (hc : ∀ l ∈ conts, TFacts l) :
+theorem splitlines_value' (first : Str) (conts : List TLine) (hf : NoB first) (hfne : first ≠ [])
+    (hc : ∀ l ∈ conts, NoB (rawLine l) ∧ rawLine l ≠ []) :
     splitlines (Model.Debcon.joinNl (first :: conts.map rawLine)) = first :: conts.map rawLine := by
   rw [splitlines_joinNl _ (by
     intro l hl
@@ -205,7 +205,7 @@ theorem splitlines_value (first : Str) (conts : List TLine) (hf : NoB first) (hf
     · exact hf
     · simp only [List.mem_map] at hl
       obtain ⟨t, ht, rfl⟩ := hl
-      exact (hc t ht).rawNoB)]
+      exact (hc t ht).1)]
   apply dropLastEmpty_id
   intro l hl
   have hm : l ∈ first :: conts.map rawLine := List.mem_of_getLast? hl
@@ -213,7 +213,12 @@ theorem splitlines_value (first : Str) (conts : List TLine) (hf : NoB first) (hf
   · exact hfne
   · simp only [List.mem_map] at hm
     obtain ⟨t, ht, rfl⟩ := hm
-    exact (hc t ht).rawNe
+    exact (hc t ht).2
+
+theorem splitlines_value (first : Str) (conts : List TLine) (hf : NoB first) (hfne : first ≠ [])
+    (hc : ∀ l ∈ conts, TFacts l) :
+    splitlines (Model.Debcon.joinNl (first :: conts.map rawLine)) = first :: conts.map rawLine :=
+  splitlines_value' first conts hf hfne (fun l hl => ⟨(hc l hl).rawNoB, (hc l hl).rawNe⟩)
 
 theorem map_decLine_raw (conts : List TLine) (hc : ∀ l ∈ conts, TFacts l) :
     (conts.map rawLine).map decLine = conts.map decodeLine := by
@@ -314,17 +319,31 @@ theorem license_typed (f : Field) (hk : f.kind = 3) (h : fieldOk f = true) :
     simp only [List.map_cons] at hie h2
     simp only [hie, Bool.false_eq_true, if_false, lstrip_of_head h2, joinNl_eq]
 
+theorem formatted_conts_ok (f : Field) (hk : f.kind = 4) (h : fieldOk f = true) : ∀ l ∈ f.conts, tlineOk l = true := by
+  simp only [fieldOk, hk, Bool.and_eq_true] at h
+  have hblock := h.2.1
+  by_cases hfe : f.first.isEmpty = true
+  · simp only [hfe, if_true, blockOk, Bool.and_eq_true, List.all_eq_true] at hblock
+    exact hblock.1.1
+  · simp only [hfe, Bool.false_eq_true, if_false, bodyOk, Bool.and_eq_true, List.all_eq_true] at hblock
+    exact hblock.1
+
 /-- **formatted-text fields** (Comment, Source, Disclaimer), as `from_fields` hands them over
 (left-stripped): the text is the first line, if any, and the decoded continuation lines -/
 theorem formatted_typed (f : Field) (hk : f.kind = 4) (h : fieldOk f = true) :
     fromValue "FormattedTextField" (some (lstrip (Model.Debcon.joinNl (f.first :: f.conts.map rawLine)))) = expectedFV f := by
   simp only [fieldOk, hk, Bool.and_eq_true, Bool.not_eq_true', Bool.or_eq_true, List.isEmpty_eq_false_iff] at h
   obtain ⟨⟨⟨_, hpl⟩, htrim⟩, hblock, hsome⟩ := h
-  have hbo := hblock
-  simp only [blockOk, Bool.and_eq_true, List.all_eq_true] at hbo
-  have hfacts : ∀ l ∈ f.conts, TFacts l := fun l hl => tline_facts l (hbo.1.1 l hl)
+  have hall : ∀ l ∈ f.conts, tlineOk l = true := by
+    by_cases hfe : f.first.isEmpty = true
+    · simp only [hfe, if_true, blockOk, Bool.and_eq_true, List.all_eq_true] at hblock
+      exact hblock.1.1
+    · simp only [hfe, Bool.false_eq_true, if_false, bodyOk, Bool.and_eq_true, List.all_eq_true] at hblock
+      exact hblock.1
+  have hfacts : ∀ l ∈ f.conts, TFacts l := fun l hl => tline_facts l (hall l hl)
   by_cases hfe : f.first = []
   · -- the value starts on the first continuation line
+    have hblock : blockOk f.conts = true := by simpa [hfe] using hblock
     have hcne : f.conts ≠ [] := by
       rcases hsome with h | h
       · exact absurd hfe h
@@ -338,7 +357,7 @@ theorem formatted_typed (f : Field) (hk : f.kind = 4) (h : fieldOk f = true) :
         simp only [blockOk, Bool.and_eq_true] at hblock
         simpa using hblock.1.2
       have hraw : rawLine t = ' ' :: t.content := by simp [rawLine, hk0]
-      have htok := hbo.1.1 t (by rw [hc]; simp)
+      have htok := hall t (by rw [hc]; simp)
       unfold tlineOk at htok
       rw [hk0] at htok
       simp only [Bool.and_eq_true, Bool.not_eq_true', List.isEmpty_eq_false_iff, trimmed] at htok
@@ -366,7 +385,7 @@ theorem formatted_typed (f : Field) (hk : f.kind = 4) (h : fieldOk f = true) :
         | cons _ _ => rfl
       have hsl := splitlines_value t.content ts (plain_noB _ hcpl) hcne' (fun l hl => hfacts l (by simp [hl]))
       have htrimc : trimmed t.content = true := by
-        have hh := hbo.1.1 t (by rw [hc]; simp)
+        have hh := hall t (by rw [hc]; simp)
         unfold tlineOk at hh
         rw [hk0] at hh
         simp only [Bool.and_eq_true] at hh
@@ -469,6 +488,64 @@ theorem splitWs_lead_space (s : Str) : splitWs (' ' :: s) = splitWs s := by
   have := splitWs_sep [] s ' ' (by decide)
   simpa [splitWs, splitWsAux] using this
 
+theorem content_decomp (s : Str) : s = List.replicate (s.takeWhile (· == ' ')).length ' ' ++ s.dropWhile (· == ' ') := by
+  induction s with
+  | nil => rfl
+  | cons c cs ih =>
+    by_cases h : c = ' '
+    · subst h
+      simp only [List.takeWhile_cons, List.dropWhile_cons, beq_self_eq_true, if_true, List.length_cons, List.replicate_succ,
+        List.cons_append]
+      rw [← ih]
+    · have : (c == ' ') = false := by simpa using h
+      simp [List.takeWhile_cons, List.dropWhile_cons, this]
+
+theorem splitWs_lead_spaces (k : Nat) (s : Str) : splitWs (List.replicate k ' ' ++ s) = splitWs s := by
+  induction k with
+  | zero => rfl
+  | succ k ih => rw [List.replicate_succ, List.cons_append, splitWs_lead_space, ih]
+
+structure IFacts (l : TLine) : Prop where
+  raw : rawLine l = ' ' :: l.content
+  ss : SS (itemText l)
+  pl : plain l.content = true
+
+theorem item_facts (l : TLine) (h : itemOk l = true) : IFacts l := by
+  simp only [itemOk, Bool.or_eq_true, Bool.and_eq_true, beq_iff_eq, Bool.not_eq_true'] at h
+  rcases h with ⟨⟨hk, hss⟩, _⟩ | ⟨⟨hk, hpl⟩, hss⟩
+  · have hs := ss_of _ hss
+    have hit : itemText l = l.content := by
+      unfold itemText
+      cases hc : l.content with
+      | nil => rfl
+      | cons c cs =>
+        have := hs.tr
+        simp only [trimmed, hc, headP, Bool.and_eq_true, Bool.not_eq_true'] at this
+        have hcsp : (c == ' ') = false := by
+          cases hcc : c == ' ' with
+          | false => rfl
+          | true =>
+            have : c = ' ' := by simpa using hcc
+            subst this
+            exact absurd this.1 (by decide)
+        simp [List.dropWhile_cons, hcsp]
+    exact ⟨by simp [rawLine, hk], by rw [hit]; exact hs, hs.pl⟩
+  · exact ⟨by simp [rawLine, hk], ss_of _ hss, hpl⟩
+
+theorem item_raw_facts (l : TLine) (h : itemOk l = true) : NoB (rawLine l) ∧ rawLine l ≠ [] := by
+  have hf := item_facts l h
+  rw [hf.raw]
+  refine ⟨?_, by simp⟩
+  intro c hc
+  rcases List.mem_cons.mp hc with rfl | hc
+  · decide
+  · exact plain_noB _ hf.pl c hc
+
+theorem item_splitWs (l : TLine) (h : itemOk l = true) : splitWs (rawLine l) = splitChar ' ' (itemText l) := by
+  have hf := item_facts l h
+  rw [hf.raw, splitWs_lead_space, content_decomp l.content, splitWs_lead_spaces]
+  exact splitWs_singleSpaced _ hf.ss
+
 /-- **white-space lists** (Files, Files-Excluded): the items of every line, in order -/
 theorem wsSep_typed (f : Field) (hk : f.kind = 1) (h : fieldOk f = true) :
     fromValue "AnyWhiteSpaceSeparatedField" (some (Model.Debcon.joinNl (f.first :: f.conts.map rawLine))) = expectedFV f := by
@@ -478,11 +555,7 @@ theorem wsSep_typed (f : Field) (hk : f.kind = 1) (h : fieldOk f = true) :
   rw [splitWs_singleSpaced f.first (ss_of _ hfirst)]
   congr 2
   rw [List.flatMap_map]
-  have hall : ∀ l ∈ f.conts, splitWs (rawLine l) = splitChar ' ' l.content := by
-    intro l hl
-    obtain ⟨⟨hk0, hss⟩, _⟩ := hconts l hl
-    have hraw : rawLine l = ' ' :: l.content := by simp [rawLine, hk0]
-    rw [hraw, splitWs_lead_space, splitWs_singleSpaced _ (ss_of _ hss)]
+  have hall : ∀ l ∈ f.conts, splitWs (rawLine l) = splitChar ' ' (itemText l) := fun l hl => item_splitWs l (hconts l hl)
   clear hconts
   generalize f.conts = cs at hall ⊢
   induction cs with
@@ -689,37 +762,33 @@ theorem statement_lead_space (s : Str) : statementFromValue (' ' :: s) = stateme
   unfold statementFromValue
   rw [splitWs_lead_space]
 
+theorem statement_lead_spaces (k : Nat) (s : Str) : statementFromValue (List.replicate k ' ' ++ s) = statementFromValue s := by
+  induction k with
+  | zero => rfl
+  | succ k ih => rw [List.replicate_succ, List.cons_append, statement_lead_space, ih]
+
 /-- **copyright fields**: one statement per line, each split into year range and holder -/
 theorem copyright_typed (f : Field) (hk : f.kind = 2) (h : fieldOk f = true) :
     fromValue "CopyrightField" (some (Model.Debcon.joinNl (f.first :: f.conts.map rawLine))) = expectedFV f := by
   simp only [fieldOk, hk, Bool.and_eq_true, List.all_eq_true, Bool.not_eq_true', beq_iff_eq] at h
   obtain ⟨_, hfirst, hconts⟩ := h
   have hssf := ss_of _ hfirst
-  have htl : ∀ l ∈ f.conts, tlineOk l = true := by
-    intro l hl
-    obtain ⟨⟨hk0, hss⟩, hdot⟩ := hconts l hl
-    have hs := ss_of _ hss
-    unfold tlineOk
-    rw [hk0]
-    have hne : l.content.isEmpty = false := by cases hc : l.content <;> simp_all [hs.ne]
-    simp [hne, hs.pl, hs.tr, hdot]
-  have hfacts : ∀ l ∈ f.conts, TFacts l := fun l hl => tline_facts l (htl l hl)
   have hv : (Model.Debcon.joinNl (f.first :: f.conts.map rawLine)).isEmpty = false := by
     have := joinNl_ne_nil' f.first (f.conts.map rawLine) hssf.ne
     cases hj : Model.Debcon.joinNl (f.first :: f.conts.map rawLine) with
     | nil => exact absurd hj this
     | cons _ _ => rfl
-  have hsl := splitlines_value f.first f.conts (plain_noB _ hssf.pl) hssf.ne hfacts
+  have hsl := splitlines_value' f.first f.conts (plain_noB _ hssf.pl) hssf.ne (fun l hl => item_raw_facts l (hconts l hl))
   simp only [fromValue, String.reduceEq, if_false, if_true, expectedFV, hk, lineSeparated, hv, Bool.false_eq_true, hsl,
     List.map_cons, List.map_map]
   congr 2
   · exact statement_eq f.first hssf
   · apply List.map_congr_left
     intro l hl
-    obtain ⟨⟨hk0, hss⟩, _⟩ := hconts l hl
-    have hraw : rawLine l = ' ' :: l.content := by simp [rawLine, hk0]
-    simp only [Function.comp, hraw, statement_lead_space]
-    exact statement_eq l.content (ss_of _ hss)
+    have hf := item_facts l (hconts l hl)
+    simp only [Function.comp, hf.raw, statement_lead_space]
+    rw [content_decomp l.content, statement_lead_spaces]
+    exact statement_eq _ hf.ss
 
 
 end Props.C09
